@@ -4,6 +4,7 @@
 -/
 import MelModel.VM.Exec
 import MelModel.Lemmas.Cost
+import MelModel.Lemmas.WeighDP
 namespace Mel.VM
 open Mel
 
@@ -38,8 +39,11 @@ theorem C11_steps_le_charged (o : Oracles) (ops : List Op) (heap : Heap)
   unfold runSteps
   omega
 
-/-- (ii, negation) weighing is exponential in the number of stacked `Loop`s (finding F2):
+/-- (ii, negation — the OLD algorithm) the recursion `weighWork`, which was literally the old implementation
+    of `opcodes_weight`, is exponential in the number of stacked `Loop`s (finding F2, now fixed):
     `n` consecutive `Loop 1 1000` instructions cost at least `2^n` calls.
+    `weighWork` is retained in the model as the recursion scheme of the specification `weight` and as the
+    record of finding F2; the implementation is now `weightDP` / `weighWorkDP` (see below).
     The hypothesis `n ≤ 1000` is necessary: the body slice of each `Loop 1 1000` covers at most
     1000 instructions, so from `n = 1002` on the count grows more slowly than `2^n`
     (see `weigh_exponential_fails`). -/
@@ -49,7 +53,8 @@ theorem C11_weigh_exponential (n : Nat) (hn : n ≤ 1000) :
   rw [weighWorkF_replicate 1 _ n (by simp) (by omega)]
   exact Nat.le_refl _
 
-/-- the un-restricted statement is false: at `n = 1002` the count is `3 * 2^1000 - 1 < 2^1002 - 1`
+/-- (the OLD algorithm, `weighWork`, as above) the un-restricted statement is false: at `n = 1002` the count
+    is `3 * 2^1000 - 1 < 2^1002 - 1`
     (stated with `k = 1000` symbolic to keep the numerals out of the kernel's way) -/
 theorem weigh_exponential_fails (k : Nat) (hk : k = 1000) :
     ¬ 2 ^ (k + 2) ≤ weighWork (List.replicate (k + 2) (Op.loop 1 1000)) + 1 := by
@@ -57,6 +62,56 @@ theorem weigh_exponential_fails (k : Nat) (hk : k = 1000) :
   rw [weighWorkF_replicate_clipped 1 _ k hk (by simp), Nat.pow_succ, Nat.pow_succ]
   have pos : 0 < 2 ^ k := Nat.pow_pos (by omega)
   omega
+
+/-! ### the weigher as implemented since the fix for F2 (`weightDP`, `weighWorkDP`) -/
+
+/-- THE refinement theorem: for every program (no bound on size or nesting) the dynamic-programming weigher
+    returns exactly the specification's saturating weight. -/
+theorem C11_weightDP_eq_weight (ops : List Op) : weightDP ops = weight ops :=
+  weightDP_eq_weight ops
+
+/-- hence the charged weight is what the implementation computes: with a weight below the u128 cap,
+    steps ≤ the value `opcodes_weight` returns -/
+theorem C11_steps_le_charged_impl (o : Oracles) (ops : List Op) (heap : Heap)
+    (h : weightDP ops < U128_MAX) : runSteps o ops heap ≤ weightDP ops := by
+  rw [C11_weightDP_eq_weight] at h ⊢
+  exact C11_steps_le_charged o ops heap h
+
+/-- (ii) the work of the new weigher is quadratic in the program length — sharp form: the ends are distinct
+    numbers `≤ ops.length`, so the pass steps sum to at most `0 + 1 + … + ops.length` -/
+theorem C11_weigh_quadratic_sharp (ops : List Op) :
+    2 * weighWorkDP ops ≤ ops.length * (ops.length + 1) :=
+  two_weighWorkDP_le ops
+
+theorem C11_weigh_quadratic (ops : List Op) : weighWorkDP ops ≤ ops.length * (ops.length + 1) := by
+  have := C11_weigh_quadratic_sharp ops
+  omega
+
+/-- one pass of at most `ops.length` steps per distinct end … -/
+theorem C11_weigh_linear_in_ends (ops : List Op) :
+    weighWorkDP ops ≤ ops.length * (weighEnds ops).length :=
+  weighWorkDP_le_mul_ends ops
+
+/-- … and there is at most one end per `Loop` instruction, plus the end of the program -/
+theorem C11_ends_le (ops : List Op) : (weighEnds ops).length ≤ (ops.filter Op.isLoop).length + 1 :=
+  length_weighEnds_le ops
+
+/-- the program that took the old weigher `≥ 2^n` calls (`C11_weigh_exponential`) now takes `≤ n (n + 1)` steps -/
+theorem C11_weigh_stacked_loops (n : Nat) :
+    weighWorkDP (List.replicate n (Op.loop 1 1000)) ≤ n * (n + 1) := by
+  have := C11_weigh_quadratic (List.replicate n (Op.loop 1 1000))
+  rwa [List.length_replicate] at this
+
+/-! sanity (non-vacuity): the two weighers on concrete programs, including nested clipped loops -/
+example : weightDP [Op.loop 3 1, Op.add] = weight [Op.loop 3 1, Op.add] := by decide
+example : weightDP [Op.loop 3 1, Op.add] = 17 := by decide
+example : weightDP [Op.loop 2 5, Op.loop 3 1, Op.add, Op.loop 4 7, Op.mul, Op.add]
+    = weight [Op.loop 2 5, Op.loop 3 1, Op.add, Op.loop 4 7, Op.mul, Op.add] := by decide
+/-- the inner loop's body (natural end 5) is clipped to `[2, 3)` inside the outer loop's body `[1, 3)` -/
+example : weightDP [Op.loop 2 2, Op.loop 3 5, Op.add, Op.mul, Op.add]
+    = weight [Op.loop 2 2, Op.loop 3 5, Op.add, Op.mul, Op.add] := by decide
+example : weighEnds [Op.loop 2 5, Op.loop 3 1, Op.add, Op.loop 4 7, Op.mul, Op.add] = [3, 6] := by decide
+example : weighWorkDP [Op.loop 2 5, Op.loop 3 1, Op.add, Op.loop 4 7, Op.mul, Op.add] = 9 := by decide
 
 end Mel.VM
 
@@ -67,3 +122,10 @@ end Mel.VM
 #print axioms Mel.VM.C11_steps_le_charged
 #print axioms Mel.VM.C11_weigh_exponential
 #print axioms Mel.VM.weigh_exponential_fails
+#print axioms Mel.VM.C11_weightDP_eq_weight
+#print axioms Mel.VM.C11_steps_le_charged_impl
+#print axioms Mel.VM.C11_weigh_quadratic_sharp
+#print axioms Mel.VM.C11_weigh_quadratic
+#print axioms Mel.VM.C11_weigh_linear_in_ends
+#print axioms Mel.VM.C11_ends_le
+#print axioms Mel.VM.C11_weigh_stacked_loops
